@@ -291,12 +291,13 @@ impl<'a> LfnBuffer<'a> {
         // Now do the decode, including the unpaired surrogate (if any) from
         // last time (maybe it has a pair now!)
         let mut is_first = true;
-        for ch in char::decode_utf16(
-            buffer
-                .iter()
-                .cloned()
-                .chain(self.unpaired_surrogate.take().iter().cloned()),
-        ) {
+        let carried = self.unpaired_surrogate.take();
+        if carried.is_some() && !self.overflow {
+            // Take back the provisional replacement character we wrote for
+            // it last time - it gets decoded again below, with this chunk.
+            self.free += '\u{fffd}'.len_utf8();
+        }
+        for ch in char::decode_utf16(buffer.iter().cloned().chain(carried.iter().cloned())) {
             match ch {
                 Ok(ch) => {
                     char_vec.push(ch).expect("Vec was full!?");
@@ -309,6 +310,9 @@ impl<'a> LfnBuffer<'a> {
                         // so save this for next time
                         trace!("LFN saved {:?}", e.unpaired_surrogate());
                         self.unpaired_surrogate = Some(e.unpaired_surrogate());
+                        // In case there is no next chunk (it was the start of
+                        // the name), provisionally show a replacement char.
+                        char_vec.push('\u{fffd}').expect("Vec was full?!");
                     } else {
                         // it wasn't - can't deal with it these mid-sequence, so
                         // replace it
